@@ -43,3 +43,11 @@ Theorem C02_explains_checker_correct : forall flow ignore routes,
   forall e f, In (e, f) flow -> ~ In e ignore -> (explained_q routes e == f)%Q.
 Proof. exact explains_b_correct. Qed.
 Print Assumptions C02_explains_checker_correct.
+
+(* non-vacuity (PathEncExample.v): the LP of a concrete instance (diamond, flows 2 and 3, one subpath constraint, k = 2)
+   has a satisfying assignment, so the hypothesis `sat a (encode_kfd I)` of the theorems above is satisfiable *)
+From FP Require Import PathEncComplete PathEncExample.
+Example C02_premises_satisfiable :
+  PathEncProofs.wf_graph (p_graph (f_base (exI 2))) /\ exists a, sat a (encode_kfd (exI 2)).
+Proof. exact (conj ex_wf ex_lp_feasible_2). Qed.
+Print Assumptions C02_premises_satisfiable.
